@@ -409,22 +409,26 @@ def c12(run):
 
 # ------------------------------------------------------------------ machine K: C06 C07
 def link_cfg(family):
+    # c07collide: the model binds an argument over a visible name of another type (TypeStable is then not an invariant)
+    collide = family == "c07collide"
     return """CONSTANTS
   DevP <- DevPIntended
   Family = "%s"
   Emit_ = TRUE
-SPECIFICATION Spec
-INVARIANTS ScopeBalance TypeStable LoopReserved LoopMeta Gen
+%sSPECIFICATION Spec
+INVARIANTS ScopeBalance %sLoopReserved LoopMeta Gen
 PROPERTIES OutMonotone Terminates
 CHECK_DEADLOCK FALSE
-""" % family
+""" % (family, "  CollidePolicy <- PolicyShadow\n" if collide else "", "" if collide else "TypeStable ")
 
 
-def link_check(run, fam, rule):
-    st = run.tlc("MC_Link", link_cfg(fam), name="MC_Link_" + fam, timeout=3000, workers=2)
-    path, n = run.records(st)
-    run.replay("tree", path, name="tree-" + fam)
-    run.add_samples(path, 1)
+def link_check(run, fam, rule, more=()):
+    fams = [fam] + list(more)
+    sts = run.tlc_many([dict(module="MC_Link", cfg=link_cfg(f), name="MC_Link_" + f, timeout=3000, workers=2) for f in fams])
+    for f, st in zip(fams, sts):
+        path, n = run.records(st)
+        run.replay("tree", path, name="tree-" + f)
+        run.add_samples(path, 1)
     return vp.finish(run, "model_checking", rule, exhaustive=True,
                      assumptions=["trees are written to a scratch directory and loaded with NewTemplate after VerifReset"])
 
@@ -441,12 +445,14 @@ def c06(run):
 
 @check("C07")
 def c07(run):
-    return link_check(run, "c07",
+    return link_check(run, "c07", more=["c07collide"], rule=
                       "five component files (no slot, default slot, named slots with arguments in conditions, both) x "
                       "pages with every ordered pair of 12 uses (same component twice with different arguments and "
                       "slot bodies, with and without slots), triples, uses inside @each and @if, a component inside a "
                       "slot body, inside an insert of a page with a layout, arguments shadowing an outer variable; "
-                      "error trees (undeclared slot, slot passed twice, missing component, ~ alias)")
+                      "error trees (undeclared slot, slot passed twice, missing component, ~ alias); arguments named like "
+                      "a visible variable (assigned, from the data map, loop variable, inside an insert) of another "
+                      "type: an error or the output with the argument bound, never a silently dropped argument")
 
 
 @check("C18")
